@@ -166,6 +166,16 @@ Proof.
   - intros s t _ _ _ _ _. reflexivity.
 Qed.
 
+(* two-step on the same instance: one info, two datasets, each equal to the fresh call and to the canonical read-off *)
+Example C03_two_step_ex :
+  let i := get_neighbour_info ex_dist (fun d => d <? 5)%Z Z.leb 1000%Z (fun s => negb (s =? 35)%Z) (fun _ => true) ex_red (fun _ => true) 2 1%Z
+             [0; 10; 20; 35]%Z [9; 22]%Z in
+  canon i = [[(1, 1%Z)]; [(2, 2%Z)]]
+  /\ sample (-1)%Z (nn_row (-1)%Z) i [100; 200; 300; 400]%Z = [200; 300]%Z
+  /\ sample (-1)%Z (nn_row (-1)%Z) i [7; 8; 9; 10]%Z = [8; 9]%Z
+  /\ map (pick_nn (-1)%Z [7; 8; 9; 10]%Z) (canon i) = [8; 9]%Z.
+Proof. repeat split; reflexivity. Qed.
+
 (* ---- empty shortcuts: when the (reduced) candidate set is empty, _create_empty_info describes the same neighbours
    as the general path would (none, for every target), and the shortcut sample (_get_empty_sample) equals the
    general sample computed from the general path's info: all fill.  Likewise when no target is valid. *)
